@@ -9,6 +9,7 @@ import datetime
 import decimal
 
 from xlcalculator import ModelCompiler
+from xlcalculator.xlfunctions import xlerrors
 
 
 def enc(v):
@@ -22,6 +23,8 @@ def enc(v):
         return {'$tuple': list(v)}
     if isinstance(v, bytes):
         return {'$bytes': v.decode('latin1')}
+    if isinstance(v, xlerrors.ExcelError):
+        return {'$err': str(v.value)}
     return v
 
 
@@ -37,8 +40,14 @@ def dec(v):
             return tuple(v['$tuple'])
         if '$bytes' in v:
             return v['$bytes'].encode('latin1')
+        if '$err' in v:
+            # an error *value* held by an input (a fresh object each time)
+            return xlerrors.ERRORS_BY_CODE[v['$err']]()
     return v
 
+
+ERR_CODES = ['#N/A', '#DIV/0!', '#VALUE!', '#NUM!', '#REF!', '#NAME?',
+             '#NULL!']
 
 # values the library has no Excel type for (an input may hold one for a while)
 ODD_VALUES = [datetime.date(2020, 1, 2), decimal.Decimal('1.5'), (1, 2),
@@ -284,6 +293,8 @@ def gen_world(rng, n_inputs=None, n_formulas=None, sheets=None, names=True,
             return None
         if r < 0.95:
             return rng.choice(DATES)
+        if r < 0.965:
+            return {'$err': rng.choice(ERR_CODES)}
         return rng.randint(-1000, 1000)
 
     ni = n_inputs if n_inputs is not None else rng.randint(2, 6)
